@@ -45,6 +45,16 @@ impl FlexiLogger {
     }
 }
 
+// Splits a target like "{A,B}" into the writer names it lists; the target must start with '{'.
+fn writer_names(target: &str) -> std::str::Split<'_, char> {
+    let end = if target.ends_with('}') {
+        target.len() - 1
+    } else {
+        target.len()
+    };
+    target[1..end].split(',')
+}
+
 impl log::Log for FlexiLogger {
     //  If other writers are configured and the metadata target addresses them correctly,
     //      - we should determine if the metadata-level is digested by any of the writers
@@ -59,7 +69,7 @@ impl log::Log for FlexiLogger {
 
         if !self.other_writers.is_empty() && target.starts_with('{') {
             // at least one other writer is configured _and_ addressed
-            let targets: Vec<&str> = target[1..(target.len() - 1)].split(',').collect();
+            let targets: Vec<&str> = writer_names(target).collect();
             for t in targets {
                 if t != "_Default" {
                     match self.other_writers.get(t) {
@@ -85,7 +95,7 @@ impl log::Log for FlexiLogger {
         let special_target_is_used = target.starts_with('{');
         if special_target_is_used {
             let mut use_default = false;
-            let targets: Vec<&str> = target[1..(target.len() - 1)].split(',').collect();
+            let targets: Vec<&str> = writer_names(target).collect();
             for t in targets {
                 if t == "_Default" {
                     use_default = true;
